@@ -194,14 +194,20 @@ class C03(Check):
     driver = "drv_c03"
     # the code as it stands (Variant.repaired = /repo HEAD, Variant.full = HEAD + the D36 patch) first; then the statements for every variant / history; last the reverted tree
     # (Variant.head: regression witnesses).  `lookup_stateless` is definitional (restates the model) and deliberately not listed.
-    theorems = ["Pox.C03.matches_iff_repaired", "Pox.C03.extract_ok_repaired", "Pox.C03.lookup_spec_wire_repaired",
+    theorems = ["Pox.C03.matches_iff_current", "Pox.C03.extract_ok_current", "Pox.C03.exact_iff_current", "Pox.C03.table_sorted_current",
+                "Pox.C03.exact_outranks_current", "Pox.C03.flowOk_current", "Pox.C03.lookup_spec_wire_current", "Pox.C03.lookup_spec_wire_literal_current",
+                "Pox.C03.miss_iff_wire_current", "Pox.C03.history_lookup_wire_current", "Pox.C03.history_lookup_sequence_wire", "Pox.C03.subsumes_iff_current",
+                "Pox.C03.flow_from_packet_current", "Pox.C03.flow_from_packet_exact_current", "Pox.C03.arp_fields_only_for_arp_current", "Pox.C03.extract_rarp_current",
+                "Pox.C03.frame_complete_regular", "Pox.C03.current_eq_full_regular", "Pox.C03.extract_ok_bytes_current", "Pox.C03.matches_iff_bytes_current",
+                "Pox.C03.lookup_spec_bytes_current", "Pox.C03.extract_tcp_options_defect",
+                "Pox.C03.matches_iff_repaired", "Pox.C03.extract_ok_repaired", "Pox.C03.lookup_spec_wire_repaired",
                 "Pox.C03.lookup_spec_wire_literal_repaired", "Pox.C03.miss_iff_wire_repaired", "Pox.C03.history_lookup_wire_repaired",
-                "Pox.C03.history_lookup_sequence_wire", "Pox.C03.exact_outranks_repaired", "Pox.C03.exact_iff_repaired",
+                "Pox.C03.exact_outranks_repaired", "Pox.C03.exact_iff_repaired",
                 "Pox.C03.table_sorted_repaired", "Pox.C03.subsumes_iff_repaired", "Pox.C03.flow_from_packet_matches_repaired",
                 "Pox.C03.flow_from_packet_exact_repaired", "Pox.C03.flowOk_repaired",
                 "Pox.C03.matches_iff_full", "Pox.C03.extract_ok_full", "Pox.C03.lookup_spec_wire_full", "Pox.C03.history_lookup_wire_full", "Pox.C03.subsumes_iff_full",
                 "Pox.C03.flow_from_packet_full", "Pox.C03.flow_from_packet_exact_full",
-                "Pox.C03.frame_complete_regular", "Pox.C03.extract_ok_bytes_repaired", "Pox.C03.lookup_spec_bytes_repaired", "Pox.C03.matches_iff_bytes_full",
+                "Pox.C03.extract_ok_bytes_repaired", "Pox.C03.lookup_spec_bytes_repaired", "Pox.C03.extract_ok_bytes_full", "Pox.C03.matches_iff_bytes_full",
                 "Pox.C03.lookup_spec_bytes_full", "Pox.C03.flowOk_full",
                 "Pox.C03.history_sorted", "Pox.C03.step_preserves_sorted", "Pox.C03.add_entry_total_by", "Pox.C03.add_position",
                 "Pox.C03.removal_sublist", "Pox.C03.history_exact_first", "Pox.C03.history_lookup", "Pox.C03.history_lookup_wire",
@@ -241,21 +247,31 @@ class C03(Check):
     technique = ("Lean 4 proof (bit-level lemmas on the wildcard word, case analysis over the match prerequisites, loop invariant of the insert binary search, "
                  "invariant-by-induction over histories of table operations, input normalisation to transfer theorems between code variants) + differential correspondence "
                  "of the compiled model against the real match/table code + spec oracle")
-    level_text = ("Theorems for the code as it stands (Variant.repaired = /repo HEAD, the variant established on every run by probing the witness inputs): code-match = "
-                  "standard-match on the extracted 12-tuple for every transmitted match and every complete frame (matches_iff_repaired), extraction = Figure 4 (extract_ok_repaired), "
-                  "after every history of add_entry / remove_entry / remove_matching_entries / remove_expired_entries and for every sequence of lookups the answer is the best matching "
-                  "flow currently installed, a miss iff none matches (history_lookup_wire_repaired, history_lookup_sequence_wire, lookup_spec_wire_repaired, miss_iff_wire_repaired), "
-                  "exact entries stand before wildcarded ones and the code's exactness test is the standard's (exact_outranks_repaired, exact_iff_repaired). "
+    level_text = ("Theorems for the code as it stands (Variant.current = /repo HEAD: repairs D37, D38, D26, D36, C03-K7; the variant is established on every run by probing one "
+                  "witness input per repair and printed as code_variant in the evidence): code-match = standard-match on the extracted 12-tuple for every transmitted match "
+                  "and every complete frame (matches_iff_current), extraction = Figure 4 (extract_ok_current; ARP fields only behind dl_type 0x0806: arp_fields_only_for_arp_current, "
+                  "extract_rarp_current), after every history of add_entry / remove_entry / remove_matching_entries / remove_expired_entries and for every sequence of lookups the answer "
+                  "is the best matching flow currently installed, a miss iff none matches (history_lookup_wire_current, history_lookup_sequence_wire, lookup_spec_wire_current, "
+                  "miss_iff_wire_current), exact entries stand before wildcarded ones and the code's exactness test is the standard's (exact_outranks_current, exact_iff_current). "
                   "READING CLAIMED for 'exact match (has no wildcards)': the prerequisite rule — wildcard bits on fields that are ignored for lack of prerequisites do not count "
-                  "(Spec.exactSig / IsBestSig; what the reference switch does and the code implements since D26); lookup_spec_wire_literal_repaired is the literal reading "
+                  "(Spec.exactSig / IsBestSig; what the reference switch does and the code implements since D26); lookup_spec_wire_literal_current is the literal reading "
                   "(all 22 bits zero), proved for flows that wildcard no ignored field, on which the two readings coincide. "
-                  "Also: the table is sorted after every history, insertion goes in front of equal priorities (table_sorted_repaired, add_position), non-strict selection is subsumption "
-                  "over all header tuples (subsumes_iff_repaired), a flow built by from_packet/pack matches its packet and is exact (flow_from_packet_*_repaired). "
-                  "Remaining hypotheses: ToS without ECN bits (open D36, matches_tos_defect), complete frames (irregular_l4/l3_witness), 16-bit priorities. "
-                  "The `_v` theorems state all of this for every combination of the repairs; the un-suffixed ones concern the tree before D37/D38/D26 and serve as regression witnesses.")
-    level_note = ("Trusted: Lean kernel, axioms propext/Classical.choice/Quot.sound, the hand-written models and the Spec transcription, this harness. "
-                  "The theorems are about the model; the per-run correspondence (all 2^10 wildcard combinations, prefix counters 0..63, structured frames, tables to 40 entries, "
-                  "operation histories to 90 calls, packet->flow round trips) is what ties it to the code.")
+                  "Also: the table is sorted after every history, insertion goes in front of equal priorities (table_sorted_current, add_position), non-strict selection is subsumption "
+                  "over all header tuples (subsumes_iff_current), a flow built by from_packet/pack matches its packet and is exact (flow_from_packet_current, flow_from_packet_exact_current). "
+                  "Remaining hypotheses: complete frames (regularG false; irregular_l4/l3_witness), 16-bit priorities — nothing about ECN bits, ARP opcodes or wildcarded prerequisite fields. "
+                  "The `_v` theorems state all of this for every combination of the repairs; the _full / _repaired / un-suffixed ones concern superseded trees (before C03-K7 / before D36 / "
+                  "before D37, D38, D26) and serve as regression statements. "
+                  "OPEN: a TCP segment whose option area the packet library rejects (option length 0 / 1 / overrunning, known kind with a wrong length) reaches from_packet without a tcp "
+                  "object; tp_src / tp_dst stay unassigned and flows naming a port miss, where the standard takes the ports from the header regardless of options "
+                  "(extract_tcp_options_defect, candidate fixes/C03_tcp_ports_despite_bad_options.diff).")
+    level_note = ("Trusted: Lean kernel, axioms propext/Classical.choice/Quot.sound, the hand-written models and the Spec transcriptions (OF10Match: matching; OF10Frame: bytes -> frame "
+                  "description), this harness. The theorems are about the model on frame DESCRIPTIONS (PHdr). The _bytes_ theorems instantiate them at the description Spec.Frame.parse "
+                  "gives for a byte sequence; in Lean the bytes occur only in the hypothesis `Spec.Frame.parse fr = some (p, true)` (which yields regularG false p) — nothing in Lean "
+                  "links the CODE's own bytes -> packet-object path (pox.lib.packet) to that description. That link, like the model-code tie as a whole, is the per-run correspondence: "
+                  "the real code is given the bytes, the driver parses the same bytes with Spec.Frame.parse and gives the model that description, and extracted fields, match results "
+                  "and lookups are compared on every case and held to the standard's 12-tuple of that description (all 2^10 wildcard combinations, prefix counters 0..63, byte-level sweeps of "
+                  "IP flags / offsets / IHL / lengths / TCP option areas / EtherTypes / LLC-SNAP forms, tables to 40 entries, operation histories to 90 calls, packet->flow round trips). "
+                  "Incomplete frames (a header the type fields promise is cut short) are compared model-vs-code only, on the library's description.")
     rule = ("case = one frame x a batch of transmitted/local matches | a table of <=40 flow entries x frames | a history of <=90 table operations with lookups in between | sequences of lookups on one unchanged table (frames differing in exactly one of the 12 fields or in fragmentation, both orders, A-B-A triples, entries discriminating on that field; each answer also compared with a fresh copy of the table) | "
             "a packet->from_packet->pack->unpack->lookup round trip | subsumption pairs; corpus = all 1024 flag combinations x prefix counters x at/near values on 9 fixed frames + "
             "prefix sweeps 0..63 + defect witnesses + 8 fixed histories; non-trivial = a batch with both outcomes / a table or history with a hit / a round trip of a frame with L3 or VLAN")
@@ -271,7 +287,7 @@ class C03(Check):
         from pox.lib.addresses import IPAddr, EthAddr
         self.of, self.FlowTable, self.TableEntry, self.SoftwareSwitch, self.pkt = of, FlowTable, TableEntry, SoftwareSwitch, pkt
         self.IPAddr, self.EthAddr = IPAddr, EthAddr
-        self._corpus = None; self._byte_frames = None
+        self._corpus = None; self._byte_frames = None; self._tcpopt_phs = set()
         self.zero_mac_eq_none = bool(EthAddr(b"\0" * 6) == None)      # noqa: E711 -- the address class's own comparison is what is probed
         self.anchors = self.compute_anchors()
         self.variant = self.detect_variant()
@@ -326,7 +342,14 @@ class C03(Check):
         if pmr.nw_proto == 3 and pmr.nw_src is not None: self.rarp_as_arp = True
         elif pmr.nw_proto is None and pmr.nw_src is None and pmr.nw_dst is None: self.rarp_as_arp = False
         else: raise RuntimeError("from_packet on a RARP frame: nw_proto=%r nw_src=%r (neither known behaviour)" % (pmr.nw_proto, pmr.nw_src))
-        return {"arpLow8": arp, "prereqExact": bool(nwp), "exactSig": bool(m2.is_exact), "tosDscp": tos}
+        # a complete TCP header whose first option has length 0 (the packet library rejects it): are the ports still extracted
+        # (fixes/C03_tcp_ports_despite_bad_options.diff: yes)?
+        badopt = bytes.fromhex("000000000002" "000000000001" "0800" "4500002e00074000400600000a0101010a020202" "0fa00050" "00000001" "00000000" "60020001" "00000000" "020005b4" "7879")
+        pmt = of.ofp_match.from_packet(self.pkt.ethernet(badopt), 1, spec_frags=True)
+        if pmt.tp_src is None and pmt.tp_dst is None: self.tcpopt_drops = True
+        elif pmt.tp_src == 4000 and pmt.tp_dst == 80: self.tcpopt_drops = False
+        else: raise RuntimeError("from_packet on a TCP segment with a zero-length option: tp_src=%r tp_dst=%r (neither known behaviour)" % (pmt.tp_src, pmt.tp_dst))
+        return {"arpLow8": arp, "prereqExact": bool(nwp), "exactSig": bool(m2.is_exact), "tosDscp": tos, "arpTypeGuard": not self.rarp_as_arp}
 
     def shape_variant(self):
         """flag -> True/False when the source has one of the two known statement shapes, else None"""
@@ -358,10 +381,14 @@ class C03(Check):
             if v is not None and v != probe[k]:
                 raise RuntimeError("ofp_match: the source has the %s shape of repair %s but behaves otherwise on the witness input" % (v, k))
         self.variant_source = {k: ("shape+probe" if shape.get(k) is not None else "probe") for k in probe}
-        return [probe["arpLow8"], probe["prereqExact"], probe["exactSig"], probe["tosDscp"]]
+        return [probe["arpLow8"], probe["prereqExact"], probe["exactSig"], probe["tosDscp"], probe["arpTypeGuard"]]
 
     def extra_evidence(self):
-        return {"code_variant": dict(zip(["arpLow8", "prereqExact", "exactSig", "tosDscp"], self.variant)), "code_variant_decided_by": self.variant_source,
+        names = {(False,) * 5: "Variant.head", (True, True, True, False, False): "Variant.repaired", (True, True, True, True, False): "Variant.full",
+                 (True, True, True, True, True): "Variant.current"}
+        return {"code_variant": dict(zip(["arpLow8", "prereqExact", "exactSig", "tosDscp", "arpTypeGuard"], self.variant)),
+                "code_variant_name": names.get(tuple(self.variant), "(mixed)"), "code_variant_decided_by": self.variant_source,
+                "tcp_ports_lost_on_rejected_options": self.tcpopt_drops,
                 "strict_test_both_ways": self.strict_both_ways, "rarp_parsed_as_arp_feeds_from_packet": self.rarp_as_arp,
                 "zero_mac_equals_none_in_address_class": self.zero_mac_eq_none}
 
@@ -424,7 +451,9 @@ class C03(Check):
         idea of the frame is not consulted, so a library that takes the frame for something else is seen to disagree —, the library's
         parse only for incomplete ones (model-vs-code there; the standard is silent on the missing part)"""
         ph, ok = raw_phdr(bytes.fromhex(hexframe))
-        if ok: return ph, 2
+        if ok:
+            if self.tcpopt_drops and self.tcpopt_class(hexframe, ph): self._tcpopt_phs.add(common.canon(ph))
+            return ph, 2
         return self.phdr_of(self.parse(hexframe))
 
     def mview(self, hexframe):
@@ -435,7 +464,29 @@ class C03(Check):
             # with its arp class behind type 0x8035.  The model mirrors that when it is given the library's (irregular) description;
             # the standard still gets the bytes' (`view`), so the oracle reports the deviation.
             return self.phdr_of(self.parse(hexframe))[0]
+        if ok and self.tcpopt_class(hexframe, ph):
+            # open finding (extract|match|lookup):tcp-options-rejected (Lean: extract_tcp_options_defect): same arrangement — the model gets the
+            # library's description (no transport object), the standard the bytes' (ports)
+            return self.phdr_of(self.parse(hexframe))[0]
         return hexframe if ok else self.phdr_of(self.parse(hexframe))[0]
+
+    def sview(self, hexframe, mv):
+        """{"sphdr": bytes} when the model was given another description than the bytes' of a complete frame: the standard is evaluated on the bytes'"""
+        if isinstance(mv, str): return {}
+        return {"sphdr": hexframe} if raw_phdr(bytes.fromhex(hexframe))[1] else {}
+
+    def tcpopt_class(self, hexframe, ph=None):
+        """complete TCP segment (per its bytes) for which the packet library hands from_packet no tcp object — only while the probe finds
+        that the tree loses the ports then"""
+        if not self.tcpopt_drops: return False
+        if ph is None:
+            ph, ok = raw_phdr(bytes.fromhex(hexframe))
+            if not ok: return False
+        l3 = ph["l3"]
+        if not (l3 is not None and l3[0] == "ip" and l3[3] == 6 and l3[6] is not None): return False
+        try: lib = self.phdr_of(self.parse(hexframe))[0]
+        except Exception: return False
+        return lib["l3"] is not None and lib["l3"][0] == "ip" and lib["l3"][6] is None
 
     def views_of(self, m):
         """[wildcards, 12 attribute views] of a real ofp_match"""
@@ -652,11 +703,12 @@ class C03(Check):
         k = case["kind"]
         if k == "pairs":
             ph = self.mview(case["frame"])
+            sp = self.sview(case["frame"], ph)
             ms = []
             for s in case["matches"]:
                 if "w" in s: ms.append({"rec": unpack_rec(bytes.fromhex(s["w"])), "wire": True})
                 else: ms.append({"rec": self.raw_of(self.real_match(s)), "wire": False})
-            return {"op": "pairs", "phdr": ph, "port": case["port"], "matches": ms}
+            return dict({"op": "pairs", "phdr": ph, "port": case["port"], "matches": ms}, **sp)
         if k == "subsume":
             ps = []
             for pr in case["pairs"]:
@@ -680,11 +732,13 @@ class C03(Check):
         if k == "table":
             frames = []
             for fr in case["frames"]:
-                frames.append({"phdr": self.mview(fr["frame"]), "port": fr["port"]})
+                mv = self.mview(fr["frame"])
+                frames.append(dict({"phdr": mv, "port": fr["port"]}, **self.sview(fr["frame"], mv)))
             return {"op": "table", "entries": [[p, unpack_rec(bytes.fromhex(w))] for p, w in case["entries"]], "frames": frames}
         if k == "selfflow":
-            return {"op": "selfflow", "phdr": self.mview(case["frame"]), "port": case["port"], "swport": case["swport"], "sf": bool(case["sf"]),
-                    "blank": list(case.get("blank", ()))}
+            mv = self.mview(case["frame"])
+            return dict({"op": "selfflow", "phdr": mv, "port": case["port"], "swport": case["swport"], "sf": bool(case["sf"]),
+                         "blank": list(case.get("blank", ()))}, **self.sview(case["frame"], mv))
         if k == "tableops":
             ops = []
             for op in case["ops"]:
@@ -904,6 +958,19 @@ class C03(Check):
     def finding_key(self, case, obs, failure):
         if failure.startswith("harness exception"): return "harness:" + failure[18:60]
         head = failure.split(":", 1)[0]
+        if head in ("extract", "match", "lookup") and self.tcpopt_drops:
+            # the frame the failure is about: a complete TCP segment the packet library hands over without a tcp object, and the failure is
+            # about a transport field / a flow that names one
+            import re
+            fr = None
+            if case["kind"] in ("pairs", "selfflow"): fr = case["frame"]
+            elif case["kind"] == "table":
+                mm = re.search(r"frame (\d+)", failure); fr = case["frames"][int(mm.group(1))]["frame"] if mm else None
+            elif case["kind"] == "tableops":
+                mm = re.search(r"op (\d+)", failure); op = case["ops"][int(mm.group(1))] if mm else None
+                fr = op[1] if op is not None and op[0] == "lookup" else None
+            if fr is not None and self.tcpopt_class(fr) and (head != "extract" or failure.split(":", 1)[1].startswith("tp_")):
+                return head + ":tcp-options-rejected"
         if head == "extract":
             name = failure.split(":", 1)[1].split(" ")[0].split("=")[0]
             ph = obs.get("phdr") or {}
@@ -1068,6 +1135,7 @@ class C03(Check):
         if r[TOS] & 3 or (l3 is not None and l3[0] == "ip" and l3[4] & 3): return "tos"
         if l3 is not None and l3[0] == "arp" and l3[1] > 255: return "arp"
         if self.rarp_as_arp and spec_headers(ph, 0)[DL_TYPE - 1] == 0x8035: return "rarp"
+        if common.canon(ph) in self._tcpopt_phs: return "tcpopt"      # descriptions of frames seen in `view` to be in the class of the open TCP-option finding
         return None
 
     def batches(self, frame, port, recs, ph, size=64, tag=None):
@@ -1293,11 +1361,14 @@ class C03(Check):
 
     # ---------------------------------------------------------------- frames built byte by byte (the packet library is not involved)
     @staticmethod
-    def raw_ip(proto, flags=0, fragoff=0, ihl=5, tos=0, src=0x0a000001, dst=0x0a000002, a=4000, b=80, opts=None, tcpoff=5, totdelta=0, pad=b""):
+    def raw_ip(proto, flags=0, fragoff=0, ihl=5, tos=0, src=0x0a000001, dst=0x0a000002, a=4000, b=80, opts=None, tcpoff=5, totdelta=0, pad=b"", tcpopts=None, udplen=12):
         """IPv4 datagram: flags = the three flag bits (4 reserved, 2 DF, 1 MF), 13-bit fragment offset, IHL with options, total length
         off by `totdelta` from what is there, trailing `pad`; behind it a TCP (data offset `tcpoff`, NOP options) / UDP / ICMP header"""
-        if proto == 6: l4 = struct.pack("!HHLLBBHHH", a, b, 1, 0, (tcpoff & 15) << 4, 0x10, 1, 0, 0) + b"\1" * (4 * max(0, tcpoff - 5)) + b"xy"
-        elif proto == 17: l4 = struct.pack("!HHHH", a, b, 12, 0) + b"abcd"
+        if proto == 6 and tcpopts is not None:        # the option area as given (zero-padded to a multiple of 4), data offset to match
+            o = tcpopts + b"\0" * (-len(tcpopts) % 4)
+            l4 = struct.pack("!HHLLBBHHH", a, b, 1, 0, ((5 + len(o) // 4) & 15) << 4, 0x02, 1, 0, 0) + o + b"xy"
+        elif proto == 6: l4 = struct.pack("!HHLLBBHHH", a, b, 1, 0, (tcpoff & 15) << 4, 0x10, 1, 0, 0) + b"\1" * (4 * max(0, tcpoff - 5)) + b"xy"
+        elif proto == 17: l4 = struct.pack("!HHHH", a, b, udplen, 0) + b"abcd"
         elif proto == 1: l4 = struct.pack("!BBH", a & 0xff, b & 0xff, 0) + b"\0" * 8
         else: l4 = struct.pack("!HH", a, b) + b"\0" * 6
         opts = (b"\1" * (4 * max(0, ihl - 5))) if opts is None else opts
@@ -1326,6 +1397,21 @@ class C03(Check):
     # OpenFlow and their neighbours, and — read from the module at run time — every type the packet library has a constant or a parser for
     ETYPES = [0x8100, 0x88a8, 0x9100, 0x9200, 0x9300, 0x80ff, 0x8101, 0x88a7, 0x88a9, 0x90ff, 0x9101, 0x05dc, 0x05ff, 0x0600, 0x0601, 0x0000, 0x002e,
               0x0800, 0x0801, 0x07ff, 0x0806, 0x0805, 0x0807, 0x8035, 0x86dd, 0x8847, 0x8848, 0x88cc, 0x888e, 0x88e7, 0x22f3, 0xffff, 0xfffe]
+
+    # TCP option areas: well-formed (what real stacks send) and malformed (what a parser may choke on); the ports do not depend on any of it
+    TCP_OPTION_AREAS = {
+        "nop": b"\1\1\1\1", "eol": b"\0\0\0\0", "eol-then-junk": b"\0\2\0\0", "mss": b"\2\4\5\xb4", "ws": b"\3\3\7", "sackperm": b"\4\2",
+        "sack1": b"\5\x0a" + b"\0\0\0\1\0\0\0\2", "sack4": b"\1\1\5\x22" + bytes(32), "ts": b"\x08\x0a" + bytes(8),
+        "syn": b"\2\4\5\xb4\4\2\x08\x0a" + bytes(8) + b"\1\3\3\7", "synack-40": b"\2\4\5\xb4\1\3\3\7\1\1\x08\x0a" + bytes(8) + b"\4\2" + b"\1" * 18,
+        "mptcp-capable": b"\x1e\x0c\x00\x81" + b"\1" * 8, "mptcp-capable-20": b"\x1e\x14\x00\x81" + b"\1" * 16, "mptcp-join": b"\x1e\x0c\x10\x01" + bytes(8),
+        "mptcp-dss": b"\x1e\x14\x20\x05" + bytes(16), "mptcp-dss-short": b"\x1e\x04\x20\x01", "mptcp-add-addr": b"\x1e\x08\x30\x01\x0a\0\0\1",
+        "mptcp-fastclose": b"\x1e\x0c\x70\x00" + bytes(8), "mptcp-unknown-subtype": b"\x1e\x04\xf0\x00", "md5": b"\x13\x12" + bytes(16), "fastopen": b"\x22\2",
+        "fastopen-cookie": b"\x22\x0a" + bytes(8), "unknown-kind": b"\xfd\4\1\2", "unknown-kind-len2": b"\xfe\2", "experimental": b"\xfd\6\xf9\x89\0\0",
+        "len0": b"\2\0\5\xb4", "len1": b"\2\1\5\xb4", "overrun": b"\2\x28\5\xb4", "overrun-by-1": b"\1\1\2\3", "mss-len3": b"\2\3\5", "mss-len6": b"\2\6\5\xb4\0\0",
+        "ws-len4": b"\3\4\7\7", "sackperm-len3": b"\4\3\0", "sack-len3": b"\5\3\0", "sack-len9": b"\5\x09" + bytes(7), "ts-len4": b"\x08\4\0\0",
+        "unknown-len0": b"\xfd\0\0\0", "unknown-len1": b"\xfd\1\0\0", "last-octet-is-a-kind": b"\1\1\1\2", "mptcp-len2": b"\x1e\2", "mptcp-len3": b"\x1e\3\0",
+        "good-then-bad": b"\2\4\5\xb4\3\0\0\0", "bad-after-eol": b"\0\3\0\0",
+    }
 
     def etypes(self):
         eth = self.pkt.ethernet
@@ -1366,6 +1452,18 @@ class C03(Check):
             out.append(("iplen", eth(0x0800, ip(17, 0, 0, **bad))))
         for off in range(0, 16):
             out.append(("tcpoff", eth(0x0800, ip(6, 2, 0, 5, tcpoff=off))))
+        for name, o in sorted(self.TCP_OPTION_AREAS.items()):
+            out.append(("tcpopt", eth(0x0800, ip(6, 2, 0, 5, tcpopts=o))))
+            out.append(("tcpopt", eth(0x8100, tag(0x0800, ip(6, 0, 0, 6, a=1, b=65535, tcpopts=o)))))
+        for kind in list(range(0, 9)) + [19, 28, 29, 30, 34, 69, 253, 254, 255]:          # every option kind the library knows + unknown ones, at lengths around its own
+            for ln in (0, 1, 2, 3, 4, 8, 10, 12, 20, 40):
+                body = bytes([kind, ln]) + bytes(max(0, min(ln, 38) - 2))
+                if len(body) <= 40: out.append(("tcpopt", eth(0x0800, ip(6, 2, 0, 5, tcpopts=body))))
+        for ul in (0, 1, 7, 8, 11, 12, 13, 1500, 65535):                 # UDP length field: the ports do not depend on it
+            out.append(("udplen", eth(0x0800, ip(17, 2, 0, 5, a=4000, b=5060, udplen=ul))))
+        for t, c in ((0, 0), (3, 1), (3, 4), (5, 1), (8, 0), (11, 0), (12, 0), (13, 0), (17, 0), (42, 0), (255, 255)):   # ICMP types whose bodies the library parses
+            out.append(("icmp", eth(0x0800, ip(1, 0, 0, 5, a=t, b=c))))
+            out.append(("icmp", eth(0x0800, ip(1, 0, 0, 5, a=t, b=c, totdelta=-6))))        # body cut short, the 4-octet header intact
         udp = ip(17, 2, 0, a=4000, b=5060)
         for t in self.etypes():
             out.append(("etype", eth(t, tag(0x0800, udp))))                 # a tag-like payload: only 0x8100 makes it a tag
@@ -1403,9 +1501,16 @@ class C03(Check):
                 r2 = list(r); r2[f] = (r2[f] + 1) & FIELD_MAX[f]; recs.append(r2)
             recs.append(self.only_field_rec(h, [TP_SRC, TP_DST])); recs.append(self.only_field_rec(h, [DL_VLAN, DL_TYPE]))
             for c in self.batches(fr, port, recs, ph, tag="bytes " + family): cases.append(c)
-            if n % 3 == 0:
-                cases.append({"kind": "selfflow", "frame": fr, "port": port, "swport": port, "sf": True, "tag": "bytes " + family})
-            if wf == 2: fam.setdefault(family, []).append((fr, port, h))
+            cls = self.trigger([0] * 13, ph)
+            if n % 3 == 0 or cls is not None:
+                c = {"kind": "selfflow", "frame": fr, "port": port, "swport": port, "sf": True, "tag": "bytes " + family}
+                cases.append(c)
+                if cls is not None: cases.append(dict(c, corr_only=True))
+            if wf == 2 and cls is None: fam.setdefault(family, []).append((fr, port, h))
+            elif wf == 2:                            # open-finding frames get a table of their own: the lookup failure is reported under the finding's key
+                ents = [[100, pack_rec(self.only_field_rec(h, [TP_DST])).hex()], [1, pack_rec(self.only_field_rec(h, [])).hex()]]
+                c = {"kind": "table", "entries": ents, "frames": [{"frame": fr, "port": port}], "tag": "bytes " + family, "class": cls}
+                cases.append(c); cases.append(dict(c, corr_only=True))
         for family in sorted(fam):
             fs = fam[family]
             for i in range(0, len(fs), 4):
